@@ -88,6 +88,7 @@ vars == <<issued, q, pulled, dropped, outbuf, wire, pos, wlen, pc, batch, took, 
           registered, sealed, writable>>
 
 HdrId == <<-1, 0>>
+WSrc == -1     \* the event source "transport writable" (handles are naturals)
 SizeOf(f) == IF f = HdrId THEN HdrLen ELSE Sizes[f[1]][f[2]]
 Toks(f) == [i \in 1..SizeOf(f) |-> <<f, i>>]
 
@@ -103,6 +104,9 @@ SumSeq(s) == IF s = <<>> THEN 0 ELSE Head(s) + SumSeq(Tail(s))
 MaxFrame == LET all == UNION {{Sizes[h][i] : i \in DOMAIN Sizes[h]} : h \in Handles}
             IN IF all = {} THEN 0 ELSE CHOOSE m \in all : \A x \in all : x <= m
 Ch0Bytes == IF 0 \in Handles THEN SumSeq(Sizes[0]) ELSE 0
+RECURSIVE SumOver(_)
+SumOver(S) == IF S = {} THEN 0 ELSE LET h == CHOOSE x \in S : TRUE IN SumSeq(Sizes[h]) + SumOver(S \ {h})
+TotalBytes == HdrLen + SumOver(Handles)
 
 Init == /\ issued = Zero
         /\ q = [h \in Handles |-> <<>>]
@@ -138,7 +142,7 @@ Unstall ==
 
 (* I/O thread                                                              *)
 Ready == {h \in Handles : q[h] # <<>> /\ (h = 0 \/ registered)}
-         \cup (IF writable /\ outbuf # <<>> THEN {"w"} ELSE {})
+         \cup (IF writable /\ outbuf # <<>> THEN {WSrc} ELSE {})
 
 Poll ==
     /\ pc = "poll"
@@ -149,7 +153,7 @@ Poll ==
                    sealed, writable>>
 
 Pull(h) ==
-    /\ pc = "events" /\ h \in batch /\ h # "w"
+    /\ pc = "events" /\ h \in batch /\ h # WSrc
     /\ q[h] # <<>> /\ took[h] <= MemBound          \* A18
     /\ LET f == <<h, Head(q[h])>> IN
        /\ IF sealed
@@ -164,15 +168,15 @@ Pull(h) ==
     /\ UNCHANGED <<issued, wire, pos, wlen, pc, batch, listening, registered, writable>>
 
 DrainDone(h) ==
-    /\ pc = "events" /\ h \in batch /\ h # "w"
+    /\ pc = "events" /\ h \in batch /\ h # WSrc
     /\ q[h] = <<>> \/ took[h] > MemBound
     /\ batch' = batch \ {h}
     /\ UNCHANGED <<issued, q, pulled, dropped, outbuf, wire, pos, wlen, pc, took, listening,
                    registered, sealed, writable>>
 
 WrBegin ==
-    /\ pc = "events" /\ "w" \in batch
-    /\ batch' = batch \ {"w"}
+    /\ pc = "events" /\ WSrc \in batch
+    /\ batch' = batch \ {WSrc}
     /\ wlen' = Len(outbuf) /\ pos' = 0
     /\ pc' = "write"
     /\ UNCHANGED <<issued, q, pulled, dropped, outbuf, wire, took, listening, registered, sealed,
@@ -225,7 +229,7 @@ IoStep == \/ Poll \/ WrBegin \/ WrDone \/ EventsDone \/ Water
 Next == \/ \E h \in Handles : Issue(h)
         \/ Unstall
         \/ IoStep
-        \/ \E n \in 1..(HdrLen + SumSeq([i \in 1..0 |-> 0]) + 64) : WrSome(n)
+        \/ \E n \in 1..TotalBytes : WrSome(n)
         \/ WrWouldBlock
 
 Spec == Init /\ [][Next]_vars
@@ -235,14 +239,14 @@ Spec == Init /\ [][Next]_vars
 Fairness == /\ WF_vars(IoStep)
             /\ \A h \in Handles : WF_vars(Issue(h))
             /\ WF_vars(Unstall)
-            /\ SF_vars(\E n \in 1..64 : WrSome(n))
+            /\ SF_vars(\E n \in 1..TotalBytes : WrSome(n))
 FairSpec == Spec /\ Fairness
 
 -----------------------------------------------------------------------------
 (* Properties                                                              *)
 
 TypeOK == /\ pc \in {"poll", "events", "write", "water"}
-          /\ pos <= wlen /\ wlen <= Len(outbuf) \/ pc # "write"
+          /\ pc = "write" => (pos <= wlen /\ wlen = Len(outbuf))
           /\ \A h \in Handles : Len(q[h]) <= MemBound
 
 \* the part of outbuf not yet accepted by the transport
